@@ -347,7 +347,7 @@ CHECKS = {
              "last-first through the ps.deliver point",
         assumptions=TRUSTED + ["gobwas/glob is trusted: channel names and patterns come from a fixed universe whose match relation is "
                                "tabulated in Trace_PubSub.tla", "the embedded-API subscriber is not exercised"],
-        count_keys=("histories", "pub", "messages", "sub", "unsub", "query", "forced_reverse_bursts"), deviation_consts=True),
+        count_keys=("histories", "pub", "messages", "sub", "unsub", "query", "forced_reverse_bursts", "drain_waited"), deviation_consts=True),
     "C07": TraceModelCheck(
         jobs={"quick": [["repl", "-n", "7", "-len", "22"], ["repl", "-n", "7", "-len", "22", "-skew"]],
               "thorough": [["repl", "-n", "14", "-len", "30"] + (["-skew"] if i % 2 else []) for i in range(12)]},
@@ -381,12 +381,19 @@ CHECKS = {
         trace_spec="Trace_Evict",
         models={"quick": [("Evict", MC_EV_CFG % (pol, 4)) for pol in EV_POLICIES],
                 "thorough": [("Evict", MC_EV_CFG % (pol, 6)) for pol in EV_POLICIES]},
-        rule="one event = one command of a random access history (SET with and without expiry, GET, MGET, EXPIRE, PERSIST, DEL, APPEND, "
-             "RPUSH, FLUSHDB) on a real server with a memory limit of 200-400 bytes under each of the seven policies; accesses are spaced "
-             "3 ms apart (recency stamps are wall-clock milliseconds); after each command the driver waits for the asynchronous "
-             "cache-update goroutines and records the evictions with the cache contents at the moment of each",
-        assumptions=TRUSTED + ["recency stamps of the LRU/LFU caches use the wall clock directly; the driver spaces accesses by 3 ms",
-                               "value types in the histories are strings and one-element lists; databases other than 0 are not used"],
+        rule="one event = one command of a random access history (SET with and without expiry, GET, MGET, TOUCH, EXPIRE, PERSIST, DEL, "
+             "APPEND, RPUSH, FLUSHDB; a third of the histories over two databases) on a real server with a memory limit of 195-400 bytes "
+             "under each of the seven policies; accesses are spaced 3 ms apart (recency stamps are wall-clock milliseconds); after each "
+             "command the driver waits for the asynchronous cache-update goroutines and records the evictions with the cache contents at "
+             "the moment of each, and then asks the server for the access count (OBJECTFREQ) and the last access (OBJECTIDLETIME) of "
+             "every key of every database: the spec carries both from step to step (frq, lst) and judges them against the history "
+             "(FreqOK, IdleOK: unnamed keys unchanged, reads counted / refreshed, entry only through a naming command) and the "
+             "candidates of every eviction against them (Anchored, AnchoredLru)",
+        assumptions=TRUSTED + ["recency stamps of the LRU/LFU caches use the wall clock directly; the driver spaces accesses by 3 ms; the last "
+                               "access derived from OBJECTIDLETIME is an interval as wide as the call took, and every rule about it is "
+                               "phrased so that a wider interval can only weaken it, never raise an alarm",
+                               "value types in the histories are strings and one-element lists; databases 0 and 1",
+                               "how many lookups one command makes per key is not fixed by the model (1 to 4 per occurrence)"],
         count_keys=("histories", "commands", "evictions", "dead"), deviation_consts=True),
     "C09": PersistCheck(
         jobs={"quick": [["-mode", "rewrite", "-sync", "always", "-n", "12", "-len", "12", "-inter"],
